@@ -944,8 +944,22 @@ func init() {
 		if thor {
 			x.Add(&Family{Name: "real-kill", Quick: 0, Thor: 400, Run: func(c *Case) { c20Case(c, true) }})
 		}
+		for _, f := range c20ExtraFamilies { // families registered by the other c20_*.go files
+			f(x)
+		}
+		if only := os.Getenv("VERIF_ONLY_FAMILY"); only != "" { // development aid: run one family
+			var keep []*Family
+			for _, f := range x.families {
+				if f.Name == only {
+					keep = append(keep, f)
+				}
+			}
+			x.families = keep
+		}
 	}
 }
+
+var c20ExtraFamilies []func(x *Ctx)
 
 var c20Kinds = []string{"board-post", "news-cat", "news-post", "news-del-art", "news-del-item", "acct-create", "acct-update", "acct-rename", "acct-rename-existing", "acct-delete", "ban-add"}
 
